@@ -4,6 +4,7 @@ import Gaftools.Props.C06c
 import Gaftools.Props.C06d
 import Gaftools.Props.C06e
 import Gaftools.Props.TieA2
+import Gaftools.Props.C06f
 #print axioms Gaftools.C18.runOrder_ranges
 #print axioms Gaftools.C18.numberChain_scaffold
 #print axioms Gaftools.C18.numberChain_bubble
@@ -30,3 +31,6 @@ import Gaftools.Props.TieA2
 #print axioms Gaftools.C06.decompose_ok_chain
 #print axioms Gaftools.TieA.finishScaffold_gen
 #print axioms Gaftools.TieA.numberChain_gen
+#print axioms Gaftools.C06.scaffold_connected
+#print axioms Gaftools.C06.decompose_ok_chain_full
+#print axioms Gaftools.C06.chainCorrect
